@@ -11,6 +11,8 @@ import (
 	"github.com/gorilla/mux"
 	jsoniter "github.com/json-iterator/go"
 	"github.com/sirupsen/logrus"
+
+	"github.com/atlassian/gostatsd/internal/verifhook"
 )
 
 type RuntimeDoneHook func()
@@ -53,6 +55,10 @@ func (s *Server) Start(ctx context.Context) error {
 	s.log.WithFields(map[string]interface{}{
 		"serverAddress": s.httpServer.Addr,
 	}).Info("starting server")
+
+	if handled, err := verifhook.ServeHTTP(ctx, s.httpServer.Addr, s.httpServer.Handler); handled {
+		return err
+	}
 
 	if err := s.httpServer.ListenAndServe(); err != nil && !errors.Is(err, http.ErrServerClosed) {
 		s.log.WithError(err).Error("Server error")
